@@ -78,7 +78,12 @@ Nets ==
                                   : hd \in {<<>>, <<[k |-> "argmax"]>>}}
                                 \cup {[dim |-> fl[1], layers |-> <<fl[2], Leaky(0, sl[1]), Leaky(0, sl[2])>>, pre |-> [kind |-> "none"]]}
                                 : sl \in Slopes} : fl \in First}
-    IN One \cup Two \cup Twice
+        \* a three-neuron first layer (neuron index 2, three-way argmax, class 2) also in the quick instance
+        Relu3 == [j \in 1..3 |-> ActLayer("relu", j - 1)]
+        Wide == {[dim |-> 2, layers |-> <<CHOOSE x \in Lin23 : TRUE>> \o av \o hd, pre |-> [kind |-> "none"]]
+                    : av \in {Relu3, <<ActLayer("relu", 2)>>, <<ActLayer("leaky", 2)>>, <<ActLayer("hard_tanh", 2)>>},
+                      hd \in {<<>>, <<[k |-> "argmax"]>>} \cup {<<[k |-> "class_char", c |-> c]>> : c \in 0..2}}
+    IN One \cup Two \cup Twice \cup Wide
 
 \* ---------------------------------------------------------------- C18: builder calls
 Call(nm, args) == [call |-> nm] @@ args
